@@ -67,6 +67,113 @@ def int_pool(tier, rng):
     return out
 
 
+class Unsafe(Exception):
+    pass
+
+
+def int_value(e, env):
+    """Integer value with the side conditions under which C's long long arithmetic agrees with Python's: operands of //, %, <<, >>
+    non-negative (divisor positive, shift < 20), everything within 2**60."""
+    import pymbolic.primitives as p
+    def chk(v):
+        v = int(v)
+        if abs(v) >= 2 ** 60:
+            raise Unsafe
+        return v
+    if isinstance(e, p.Variable):
+        return env[e.name]
+    if not isinstance(e, p.Expression):
+        return int(e)
+    if isinstance(e, p.Sum):
+        return chk(sum(int_value(c, env) for c in e.children))
+    if isinstance(e, p.Product):
+        r = 1
+        for c in e.children:
+            r = chk(r * int_value(c, env))
+        return r
+    if isinstance(e, (p.FloorDiv, p.Remainder)):
+        a, b = int_value(e.numerator, env), int_value(e.denominator, env)
+        if a < 0 or b <= 0:
+            raise Unsafe
+        return a // b if isinstance(e, p.FloorDiv) else a % b
+    if isinstance(e, (p.LeftShift, p.RightShift)):
+        a, b = int_value(e.shiftee, env), int_value(e.shift, env)
+        if a < 0 or b < 0 or b >= 20:
+            raise Unsafe
+        return chk(a << b) if isinstance(e, p.LeftShift) else a >> b
+    if isinstance(e, p.Power):
+        a, b = int_value(e.base, env), int_value(e.exponent, env)
+        if b not in (0, 1, 2):
+            raise Unsafe
+        return chk(a ** b)
+    if isinstance(e, (p.BitwiseAnd, p.BitwiseOr, p.BitwiseXor)):
+        import functools
+        import operator
+        vals = [int_value(c, env) for c in e.children]
+        if any(v < 0 for v in vals):
+            raise Unsafe
+        op = {p.BitwiseAnd: operator.and_, p.BitwiseOr: operator.or_, p.BitwiseXor: operator.xor}[type(e)]
+        return functools.reduce(op, vals)
+    if isinstance(e, p.Comparison):
+        import operator
+        ops = {"<": operator.lt, ">": operator.gt, "<=": operator.le, ">=": operator.ge, "==": operator.eq, "!=": operator.ne}
+        return int(ops[e.operator](int_value(e.left, env), int_value(e.right, env)))
+    if isinstance(e, p.LogicalAnd):
+        return int(all(int_value(c, env) for c in e.children))
+    if isinstance(e, p.LogicalOr):
+        return int(any(int_value(c, env) for c in e.children))
+    if isinstance(e, p.LogicalNot):
+        return int(not int_value(e.child, env))
+    if isinstance(e, p.If):
+        # both branches are evaluated for the side conditions (C evaluates one, but the text of both is emitted)
+        t, f = int_value(e.then, env), int_value(e.else_, env)
+        return t if int_value(e.condition, env) else f
+    raise Unsafe
+
+
+def systematic_int(tier):
+    """Every (parent operator, child position, child operator) over the integer operator set, operands a, b+1, c+2 and 3, kept when the C side
+    conditions hold on the whole grid (decided by int_value, an evaluation independent of the mapper)."""
+    import pymbolic.primitives as p
+    a, b, c = p.Variable("a"), p.Variable("b"), p.Variable("c")
+    x, y, z, k = a, p.Sum((b, 1)), p.Sum((c, 2)), 3
+    BIN = {
+        "+": lambda u, v: p.Sum((u, v)), "-": lambda u, v: p.Sum((u, p.Product((-1, v)))), "*": lambda u, v: p.Product((u, v)), "//": p.FloorDiv, "%": p.Remainder,
+        "<<": p.LeftShift, ">>": p.RightShift, "&": lambda u, v: p.BitwiseAnd((u, v)), "|": lambda u, v: p.BitwiseOr((u, v)), "^": lambda u, v: p.BitwiseXor((u, v)),
+        "<": lambda u, v: p.Comparison(u, "<", v), "==": lambda u, v: p.Comparison(u, "==", v), ">=": lambda u, v: p.Comparison(u, ">=", v),
+        "&&": lambda u, v: p.LogicalAnd((u, v)), "||": lambda u, v: p.LogicalOr((u, v)), "**2": lambda u, v: p.Power(u, 2),
+        "?:": lambda u, v: p.If(p.Comparison(u, "<", v), u, v), "neg": lambda u, v: p.Product((-1, u)), "!": lambda u, v: p.LogicalNot(u),
+        "*3": lambda u, v: p.Product((u, v, 3)), "+3": lambda u, v: p.Sum((u, v, 3)),
+    }
+    g = grid("int")
+    out = []
+    for pn, pb in BIN.items():
+        for qn, qb in BIN.items():
+            for inner_args in ((x, y), (y, k), (k, z)):
+                inner = qb(*inner_args)
+                for e, lab in ((pb(inner, z), f"{pn}(left={qn})"), (pb(z, inner), f"{pn}(right={qn})"), (pb(inner, inner), f"{pn}(both={qn})")):
+                    try:
+                        for env in g:
+                            int_value(e, env)
+                    except (Unsafe, ZeroDivisionError):
+                        continue
+                    out.append((lab, e))
+    if tier == "thorough":
+        for pn, pb in BIN.items():
+            for qn, qb in list(BIN.items())[:14]:
+                for rn, rb in list(BIN.items())[:10]:
+                    e = pb(qb(rb(x, y), z), k)
+                    e2 = pb(k, qb(z, rb(y, x)))
+                    for ee, lab in ((e, f"{pn}({qn}({rn}))L"), (e2, f"{pn}({qn}({rn}))R")):
+                        try:
+                            for env in g:
+                                int_value(ee, env)
+                        except (Unsafe, ZeroDivisionError):
+                            continue
+                        out.append((lab, ee))
+    return out
+
+
 def double_pool(tier, rng):
     import pymbolic.primitives as p
     x, y = p.Variable("x"), p.Variable("y")
@@ -342,6 +449,29 @@ def parse_out(out, results):
         results.setdefault((int(i), int(k)), []).append(float(v) if ("." in v or "e" in v or "n" in v) else int(v))
 
 
+def b_systematic(tier):
+    from pymbolic.mapper.c_code import CCodeMapper
+    pool = systematic_int(tier)
+    b = BoundedRun("c-programs-systematic", rule="every (parent operator, child position, child operator) over 21 integer operator forms (+, -, *, //, %, <<, >>, &, |, ^, <, ==, >=, "
+                   "&&, ||, square, conditional, negation, !, 3-ary * and +) with three operand assignments, in left / right / both positions (thorough: also three-level "
+                   "chains), kept when the C side conditions (non-negative operands of // % << >> and bitwise operators, |values| < 2**60) hold on the whole grid as decided "
+                   "by an evaluation independent of the mapper: emitted by a fresh CCodeMapper, compiled and run on the 5x5x4 grid, compared exactly with that evaluation "
+                   "and with the evaluator", bound=f"{len(pool)} expressions x 100 environments", functions=["CCodeMapper.map_*", "SimplifyingSortingStringifyMapper.map_sum/map_product"])
+    cases, exprs = [], {}
+    for i, (lab, e) in enumerate(pool):
+        r = outcome.run(lambda: (lambda m: (m(e), list(m.cse_name_list)))(CCodeMapper()))
+        b.case(("sys", repr(e)), sample=dict(label=lab, expr=repr(e)))
+        if r[0] != "val":
+            b.fail(Failure("c-programs-systematic", f"what=emit-raised label={lab} expr={e!r}", dict(kind="int", exprs=[repr(e)]), expected="C text", actual=outcome.describe(r)[:200],
+                           functions=["CCodeMapper"]))
+            continue
+        cases.append((i, r[1][1], [r[1][0]]))
+        exprs[i] = ([e], [r[1][0]])
+        # the independent evaluation and the evaluator must agree to begin with
+    execute(b, "c-programs-systematic", "int", cases, exprs)
+    return b
+
+
 def b_cse(tier, seed):
     rng = random.Random(seed)
     ipool = int_pool(tier, rng)
@@ -378,7 +508,7 @@ def b_cse(tier, seed):
 
 
 def bounded(tier, seed, procs):
-    return [b_programs(tier, seed, "int"), b_programs(tier, seed, "double"), b_cse(tier, seed)]
+    return [b_programs(tier, seed, "int"), b_systematic(tier), b_programs(tier, seed, "double"), b_cse(tier, seed)]
 
 
 def proof_jobs(tier):
